@@ -440,6 +440,36 @@ pub fn total_case() -> BoxedStrategy<TotalCase> {
     (ref_day(), mixed_dur(), gen::unit_in(0, 9)).prop_map(|(r, d, unit)| TotalCase { r, d, unit }).boxed()
 }
 pub fn compare_case() -> BoxedStrategy<CompareCase> {
+    prop_oneof![9 => compare_case_general(), 1 => compare_case_huge_days()].boxed()
+}
+
+/// both operands carry a calendar unit and a days field beyond 32 bits (valid: days may reach 1.04e11); the day
+/// counts differ by a few days or not at all
+fn compare_case_huge_days() -> BoxedStrategy<CompareCase> {
+    let base = prop_oneof![
+        (-3i128..=3).prop_map(|k| (1i128 << 31) + k),
+        (-3i128..=3).prop_map(|k| (1i128 << 32) + k),
+        Just(2_500_000_000i128),
+        Just(3_000_000_000i128),
+        (0i128..=3).prop_map(|k| 104_249_991_373 - k),
+        (1i128 << 31)..=104_249_991_000i128,
+    ];
+    (ref_day(), base, -2i128..=2, -2i128..=2, 0i128..=2, 0i128..=13, 0i128..=3, prop::bool::ANY, prop::bool::ANY, 0i128..=30)
+        .prop_map(|(r, base, e1, e2, y, mo, w, neg, same_shape, h)| {
+            let mut fa = [y, mo.max(if y == 0 && w == 0 { 1 } else { 0 }), w, base + e1, h, 0, 0, 0, 0, 0];
+            let mut fb = if same_shape { [y, fa[1], w, base + e2, 0, 0, 0, 0, 0, 0] } else { [0, 0, 0, base + e2 + 31, 1, 0, 0, 0, 0, 0] };
+            if neg {
+                for x in fa.iter_mut().chain(fb.iter_mut()) {
+                    *x = -*x;
+                }
+            }
+            CompareCase { r, a: Dur { f: fa }, b: Dur { f: fb } }
+        })
+        .prop_filter("valid", |c| c.a.valid() && c.b.valid())
+        .boxed()
+}
+
+fn compare_case_general() -> BoxedStrategy<CompareCase> {
     (ref_day(), mixed_dur(), mixed_dur(), 0u8..4)
         .prop_map(|(r, a, b, k)| match k {
             // the same span in another shape: months <-> days relative to r
@@ -494,7 +524,7 @@ pub fn until_case() -> BoxedStrategy<UntilCase> {
 }
 
 pub fn run(ctx: &mut Ctx) {
-    ctx.rule = "round: generated (reference date incl. month ends / Feb 29, valid duration mixing calendar and time units with both signs and exact half-day/half-hour ties, largest absent|auto|unit, smallest year..ns, admissible increment, 9 modes) -> Duration::round relative to the PlainDate against add-then-remeasure with exact rational progress (oracle self-tested against the test262 tables ported by the repo; one case in six is a pure re-balancing case: time fields exactly on / next to 24 h, 60 min, 60 s, 1000 ms.., smallest unit nanosecond, increment 1, largest absent / auto / the duration's own largest / larger), plus oracle-free invariants (sign-uniform, zero residue below smallest, multiple of increment); total: every unit, against the correctly rounded exact rational (<= 1 ulp); compare: against the order of the instants the durations lead to (incl. the same span in another shape); until-rounded: the same machinery through PlainDateTime/PlainDate until/since with rounding options (since = negated mode, negated result). Cells with increment > 1, a date smallest unit and largest != smallest are unjudged (Temporal added a rejection after this snapshot). non-trivial = rounding carries into a larger unit, reference day >= 29, months and days both non-zero, negative, calendar smallest unit.".into();
+    ctx.rule = "round: generated (reference date incl. month ends / Feb 29, valid duration mixing calendar and time units with both signs and exact half-day/half-hour ties, largest absent|auto|unit, smallest year..ns, admissible increment, 9 modes) -> Duration::round relative to the PlainDate against add-then-remeasure with exact rational progress (oracle self-tested against the test262 tables ported by the repo; one case in six is a pure re-balancing case: time fields exactly on / next to 24 h, 60 min, 60 s, 1000 ms.., smallest unit nanosecond, increment 1, largest absent / auto / the duration's own largest / larger), plus oracle-free invariants (sign-uniform, zero residue below smallest, multiple of increment); total: every unit, against the correctly rounded exact rational (<= 1 ulp); compare: against the order of the instants the durations lead to (incl. the same span in another shape, and - one case in ten - operands with a calendar unit and a days field between 2^31 and 1.04e11 that differ by a few days); until-rounded: the same machinery through PlainDateTime/PlainDate until/since with rounding options (since = negated mode, negated result). Cells with increment > 1, a date smallest unit and largest != smallest are unjudged (Temporal added a rejection after this snapshot). non-trivial = rounding carries into a larger unit, reference day >= 29, months and days both non-zero, negative, calendar smallest unit.".into();
     let t = ctx.tier;
     ctx.run_prop(&RoundSub, &round_case, t.pick(300_000, 10_000_000));
     ctx.run_prop(&TotalSub, &total_case, t.pick(200_000, 6_000_000));
